@@ -721,15 +721,17 @@ impl ConcRunner<'_> {
         world.solo_points = case.solo.clone();
         world.solo_budget = solo_budget(&cfg);
         world.state_sample = 1;
-        unsafe {
-            world.attach(
-                cfg.frames,
-                std::slice::from_raw_parts(lp, ll),
-                std::slice::from_raw_parts(tp, tl),
-                std::slice::from_raw_parts(cp, cl),
-            );
+        if !cfg!(miri) {
+            unsafe {
+                world.attach(
+                    cfg.frames,
+                    std::slice::from_raw_parts(lp, ll),
+                    std::slice::from_raw_parts(tp, tl),
+                    std::slice::from_raw_parts(cp, cl),
+                );
+            }
         }
-        crash.enabled = self.props.has(5);
+        crash.enabled = self.props.has(5) && !cfg!(miri);
         crash.destructive = true;
         world.crash = Some(Box::new(crash));
         let shared = Shared::new(world);
